@@ -276,7 +276,7 @@ class Integrate:
         for start, end in zip(knots[:-1], knots[1:]):
             nodes = tuple(start + (end - start) * node for node in nodes_0to1)
             curve_vals = tuple(curve.eval(node) for node in nodes)
-            abscurve_vals = tuple(np.sqrt(val @ val) for val in curve_vals)
+            abscurve_vals = tuple(np.sqrt(float(val @ val)) for val in curve_vals)
             function_vals = tuple(function(node) for node in nodes)
             new_integral = sum(
                 map(np.prod, zip(integ_array, function_vals, abscurve_vals))
